@@ -935,6 +935,44 @@ def viewToString (v : Spec.Ocf.View) : String :=
     ++ String.join (v.blocks.map fun b => s!" {b.count} x{bytesToHex b.data}")
     ++ s!" T {v.trailing}"
 
+/-- `judge-ocfw <k> <implementation outcome> <case>`: C15/C16 on the implementation's own call
+    results and final sink view — when the last operation (`into_inner`) returned Ok and the sink is
+    a complete container file, it holds at least every object whose call returned Ok (a sink error
+    reported once may not make later calls "succeed" over a lost block). -/
+def runJudgeOcfw : P String := do
+  let toks ← pList tok
+  let _codecName ← tok
+  let _approx ← pNat
+  let _debug ← pNat
+  let _sm ← pSchemaMut
+  let _json ← pBytes
+  let _userMeta ← pList (do let k ← pBytes; let v ← pBytes; pure (k, v))
+  let _sync ← pBytes
+  let _sched ← pList pSinkResp
+  let ops ← pList pWCase
+  let calls := toks.takeWhile (· ≠ ";")
+  let view := (toks.dropWhile (· ≠ ";")).drop 1
+  -- objects acknowledged by Ok
+  let acked := ((ops.zip calls).map fun (op, c) =>
+    if c.startsWith "ok" then (match op with | .val _ => 1 | .push _ n => n | _ => 0) else 0).foldl (· + ·) 0
+  -- objects in the final view: `… B n (count xdata)* T t`
+  let afterB := (view.dropWhile (· ≠ "B")).drop 1
+  let verdict := match afterB with
+    | nStr :: rest =>
+      let n := nStr.toNat?.getD 0
+      let counts := (List.range n).map fun i => ((rest[2 * i]?).bind (·.toNat?)).getD 0
+      let total := counts.foldl (· + ·) 0
+      let trailing := ((rest.drop (2 * n)).dropWhile (· ≠ "T")).drop 1 |>.head? |>.bind (·.toNat?) |>.getD 1
+      let lastOk := match calls.getLast?, ops.getLast? with
+        | some c, some .into => c.startsWith "ok"
+        | _, _ => false
+      if calls.any (fun c => c.startsWith "panic" || c.startsWith "abort") then "VIOLATION panic or abort"
+      else if lastOk && calls.length = ops.length && trailing = 0 && total < acked then
+        "VIOLATION into_inner returned Ok but the file lacks objects whose calls returned Ok (a block was lost after a sink error that was reported only once)"
+      else "ok"
+    | [] => "ok"
+  pure s!"judged # {verdict}"
+
 /-- `ocfw <codec> <approx> <debug> <schema> <xjson> <nmeta (k v)*> <xsync> <nsched resp*> <nops op*> [ext]` -/
 def runOcfw : P String := do
   let codecName ← tok
@@ -1173,6 +1211,7 @@ def dispatch (line : String) : String :=
       | "judge-schema" => some runJudgeSchema
       | "judge-c11" => some runJudgeC11
       | "judge-skip" => some runJudgeSkip
+      | "judge-ocfw" => some runJudgeOcfw
       | "derive" => some runDerive
       | "crc" => some runCrc
       | "de" => some runDe
